@@ -11,7 +11,7 @@
 //
 //	case <id> dag=<seed>:<maxblocks> q=<root>:<sel>,<root>:<sel>[,<root>:<sel>] start=<step>,<step>[,<step>]
 //	          sched=<seed> w=<dq>,<dr>,<ww> wr=<r0>,<r1>[,<r2>] ws=<s0>,<s1>[,<s2>] qg=<bits> sg=<bits>
-//	          wg=<block|-> dedup=none|same|distinct
+//	          wg=<block|-> dedup=none|same|distinct [peers=<bits>]   (bit i = 1: request i is issued by a SECOND requestor peer)
 //	remote <cids|->      responder's store
 //	put <cid> …          requestor's store
 //	run                  -> one summary line
@@ -59,6 +59,7 @@ type Params struct {
 	QG, SG []bool
 	WG     int // block whose first store write parks (-1 none)
 	Dedup  string
+	Peers  []int // issuing requestor of each request: 0 = node A, 1 = node B (a second requestor peer)
 }
 
 func bits(s string, n int) ([]bool, bool) {
@@ -171,6 +172,18 @@ func parseHeader(h string) (Params, bool) {
 		}
 		p.Sched = x
 	}
+	p.Peers = make([]int, n)
+	if v, has := kvs["peers"]; has {
+		b, ok := bits(v, n)
+		if !ok {
+			return p, false
+		}
+		for i, x := range b {
+			if x {
+				p.Peers[i] = 1
+			}
+		}
+	}
 	if v, has := kvs["dedup"]; has {
 		if v != "none" && v != "same" && v != "distinct" {
 			return p, false
@@ -184,7 +197,8 @@ func parseHeader(h string) (Params, bool) {
 
 type runOut struct {
 	res   []tn.Result
-	store []int
+	store []int // requestor A's store afterwards
+	storeB []int // requestor B's store afterwards
 	hang  string
 	sim   *tn.Sim
 	steps int
@@ -200,7 +214,13 @@ func dedupExt(key string) graphsync.ExtensionData {
 
 // run the requests `which` (indices into qs) concurrently under the case's schedule (solo = free run)
 func runSet(w *tn.World, qs []*tn.Query, which []int, loc, rem []int, p Params, solo bool) *runOut {
-	s := tn.NewSim(w, loc, rem, len(which))
+	withB := false
+	for _, qi := range which {
+		if p.Peers[qi] == 1 {
+			withB = true
+		}
+	}
+	s := tn.NewSimB(w, loc, rem, loc, withB, len(which))
 	ro := &runOut{sim: s}
 	var rr []*tn.ReqRun
 	for k, qi := range which {
@@ -211,7 +231,11 @@ func runSet(w *tn.World, qs []*tn.Query, which []int, loc, rem []int, p Params, 
 		case "distinct":
 			exts = append(exts, dedupExt(fmt.Sprintf("key-%d", qi)))
 		}
-		r := s.AddRequest(qs[qi], exts...)
+		node := tn.NodeA
+		if p.Peers[qi] == 1 {
+			node = tn.NodeB
+		}
+		r := s.AddRequestAt(node, qs[qi], exts...)
 		rr = append(rr, r)
 		if !solo {
 			s.ReqHookGate[k].Enable(p.QG[qi])
@@ -248,11 +272,17 @@ func runSet(w *tn.World, qs []*tn.Query, which []int, loc, rem []int, p Params, 
 			f func()
 		}
 		var en []act
-		if s.InFlight(0) > 0 {
-			en = append(en, act{p.W[0], func() { s.Deliver(0) }})
+		for _, d := range []int{0, 2} {
+			d := d
+			if s.InFlight(d) > 0 {
+				en = append(en, act{p.W[0], func() { s.Deliver(d) }})
+			}
 		}
-		if s.InFlight(1) > 0 {
-			en = append(en, act{p.W[1], func() { s.Deliver(1) }})
+		for _, d := range []int{1, 3} {
+			d := d
+			if s.InFlight(d) > 0 {
+				en = append(en, act{p.W[1], func() { s.Deliver(d) }})
+			}
 		}
 		for k := range rr {
 			k := k
@@ -287,7 +317,7 @@ func runSet(w *tn.World, qs []*tn.Query, which []int, loc, rem []int, p Params, 
 			}
 			break
 		}
-		if allDone && allStarted && s.InFlight(0) == 0 && s.InFlight(1) == 0 {
+		if allDone && allStarted && s.InFlight(0)+s.InFlight(1)+s.InFlight(2)+s.InFlight(3) == 0 {
 			break
 		}
 		total := 0
@@ -316,7 +346,8 @@ func runSet(w *tn.World, qs []*tn.Query, which []int, loc, rem []int, p Params, 
 	for _, r := range rr {
 		ro.res = append(ro.res, s.ResultOf(r))
 	}
-	ro.store = s.StoreKeys(0)
+	ro.store = s.StoreKeys(tn.NodeA)
+	ro.storeB = s.StoreKeys(tn.NodeB)
 	s.Close()
 	return ro
 }
@@ -329,13 +360,13 @@ func runSet(w *tn.World, qs []*tn.Query, which []int, loc, rem []int, p Params, 
 // hook of B for X, nothing on the wire: cross-request deduplication), and after that a load of X on
 // the requestor was answered from the local store — which did not hold X — before the first store
 // write of X was committed (A had not stored its copy yet).  Returns a description or "".
-func sharedRace(s *tn.Sim) string {
+func sharedRace(s *tn.Sim, nodeOf func(req int) int) string {
 	var log []tn.Event
 	s.Locked(func() { log = append(log, s.Log...) })
 	type hk struct{ req, seq int }
 	wire := map[int][]hk{}   // block -> (request, seq) of hooks with bytes on the wire
 	nowire := map[int][]hk{} // block -> (request, seq) of hooks without
-	firstWrite := map[int]int{}
+	firstWrite := map[[2]int]int{} // (node, block) -> seq of the first committed write
 	for _, e := range log {
 		switch e.Kind {
 		case tn.EvRespHook:
@@ -345,19 +376,19 @@ func sharedRace(s *tn.Sim) string {
 				nowire[e.Cid] = append(nowire[e.Cid], hk{e.Req, e.Seq})
 			}
 		case tn.EvWrite:
-			if e.Side == 0 {
-				if _, ok := firstWrite[e.Cid]; !ok {
-					firstWrite[e.Cid] = e.Seq
+			if e.Side != tn.NodeResp {
+				if _, ok := firstWrite[[2]int{e.Side, e.Cid}]; !ok {
+					firstWrite[[2]int{e.Side, e.Cid}] = e.Seq
 				}
 			}
 		}
 	}
 	for _, e := range log {
-		if e.Kind != tn.EvRead || e.Side != 0 || e.OK {
+		if e.Kind != tn.EvRead || e.Side == tn.NodeResp || e.OK {
 			continue
 		}
 		x := e.Cid
-		if fw, ok := firstWrite[x]; ok && fw < e.Seq {
+		if fw, ok := firstWrite[[2]int{e.Side, x}]; ok && fw < e.Seq {
 			continue
 		}
 		for _, b := range nowire[x] {
@@ -365,7 +396,7 @@ func sharedRace(s *tn.Sim) string {
 				continue
 			}
 			for _, a := range wire[x] {
-				if a.req != b.req && a.seq < b.seq {
+				if a.req != b.req && a.seq < b.seq && nodeOf(a.req) == e.Side && nodeOf(b.req) == e.Side {
 					return fmt.Sprintf("block %d went on the wire under r%d (seq %d), r%d was then told present-without-bytes (seq %d) and a load of it hit the local store (seq %d) before r%d's copy was stored", x, a.req, a.seq, b.req, b.seq, e.Seq, a.req)
 				}
 			}
@@ -533,10 +564,20 @@ func judgeCase(out *reg.Out, w *tn.World, qs []*tn.Query, loc, rem []int, p Para
 	var solo []*runOut
 	soloStore := append([]int{}, loc...)
 	sort.Ints(soloStore)
+	soloStoreB := append([]int{}, soloStore...)
+	anyB := false
 	for i := 0; i < n; i++ {
 		so := runSet(w, qs, []int{i}, loc, rem, p, true)
 		solo = append(solo, so)
-		soloStore = union(soloStore, so.store)
+		if p.Peers[i] == 1 {
+			anyB = true
+			soloStoreB = union(soloStoreB, so.storeB)
+		} else {
+			soloStore = union(soloStore, so.store)
+		}
+	}
+	if anyB {
+		out.Cov("two-requestors")
 	}
 	if os.Getenv("GS_TRACE") != "" {
 		for _, l := range conc.sim.Dump() {
@@ -552,7 +593,12 @@ func judgeCase(out *reg.Out, w *tn.World, qs []*tn.Query, loc, rem []int, p Para
 	}
 	out.Cov("dedup." + p.Dedup)
 	out.Cov(fmt.Sprintf("requests.%d", n))
-	race := sharedRace(conc.sim)
+	race := sharedRace(conc.sim, func(req int) int {
+		if req >= 0 && req < n && p.Peers[req] == 1 {
+			return tn.NodeB
+		}
+		return tn.NodeA
+	})
 	if race != "" {
 		out.Cov("shared-race")
 		out.Cov("shared-race." + p.Dedup)
@@ -582,6 +628,13 @@ func judgeCase(out *reg.Out, w *tn.World, qs []*tn.Query, loc, rem []int, p Para
 	for i, so := range solo {
 		if so.hang != "" {
 			out.Fail(cls("baseline-hang"), "request %d alone: %s", i, so.hang)
+			summary()
+			return
+		}
+	}
+	for i, so := range solo {
+		if len(so.res[0].Hard) > 0 && qs[i].RefTrav(locS, remS)[0].Avail {
+			out.Fail(cls("baseline-rejected"), "request %d alone failed verification: %s", i, strings.Join(so.res[0].Hard, " "))
 			summary()
 			return
 		}
@@ -619,6 +672,8 @@ func judgeCase(out *reg.Out, w *tn.World, qs []*tn.Query, loc, rem []int, p Para
 	}
 	if tn.FmtInts(conc.store) != tn.FmtInts(soloStore) {
 		out.Fail(cls("store-differs"), "requestor store after the concurrent run [%s], union of the solo runs' stores [%s]", tn.FmtInts(conc.store), tn.FmtInts(soloStore))
+	} else if anyB && tn.FmtInts(conc.storeB) != tn.FmtInts(soloStoreB) {
+		out.Fail(cls("store-differs"), "second requestor's store after the concurrent run [%s], union of its solo runs' stores [%s]", tn.FmtInts(conc.storeB), tn.FmtInts(soloStoreB))
 	}
 	summary()
 }
@@ -653,8 +708,12 @@ func emit(wr *bufio.Writer, id string, p Params, loc, rem []int) {
 	if p.WG >= 0 {
 		wg = strconv.Itoa(p.WG)
 	}
-	fmt.Fprintf(wr, "case %s dag=%d:%d q=%s start=%s sched=%d w=%d,%d,%d wr=%s ws=%s qg=%s sg=%s wg=%s dedup=%s\n",
-		id, p.Seed, p.MB, strings.Join(qs, ","), tn.FmtInts(p.Start), p.Sched, p.W[0], p.W[1], p.W[2], tn.FmtInts(p.WR), tn.FmtInts(p.WS), fmtBits(p.QG), fmtBits(p.SG), wg, p.Dedup)
+	pb := make([]bool, len(p.Q))
+	for i := range pb {
+		pb[i] = i < len(p.Peers) && p.Peers[i] == 1
+	}
+	fmt.Fprintf(wr, "case %s dag=%d:%d q=%s start=%s sched=%d w=%d,%d,%d wr=%s ws=%s qg=%s sg=%s wg=%s dedup=%s peers=%s\n",
+		id, p.Seed, p.MB, strings.Join(qs, ","), tn.FmtInts(p.Start), p.Sched, p.W[0], p.W[1], p.W[2], tn.FmtInts(p.WR), tn.FmtInts(p.WS), fmtBits(p.QG), fmtBits(p.SG), wg, p.Dedup, fmtBits(pb))
 	fmt.Fprintln(wr, "remote", tn.FmtInts(rem))
 	if len(loc) > 0 {
 		ss := make([]string, len(loc))
@@ -800,6 +859,10 @@ func genCase(r *rand.Rand, i int) (Params, []int, []int) {
 			p.Dedup = "distinct"
 		case 1:
 			p.Dedup = "same"
+		}
+		p.Peers = make([]int, n)
+		if i%7 == 6 { // one of the requests comes from a second requestor peer
+			p.Peers[1+r.Intn(n-1)] = 1
 		}
 		return p, loc, rem
 	}
